@@ -25,14 +25,13 @@ Qed.
 Lemma canon_weaken : forall p ds, canon p ds = true -> canon Equal ds = true.
 Proof.
   intros p [|[o n] r] H; [reflexivity|]. cbn [canon] in *.
-  apply andb_true_iff in H as [H Hr]. apply andb_true_iff in H as [Hn _].
-  rewrite Hn, Hr. destruct o; reflexivity.
+  apply andb_true_iff in H as [_ Hr]. rewrite Hr. destruct o; reflexivity.
 Qed.
 
 Lemma canon_cons : forall p o n r,
-  canon p ((o, n) :: r) = true <-> 0 < n /\ follows p o = true /\ canon o r = true.
+  canon p ((o, n) :: r) = true <-> follows p o = true /\ canon o r = true.
 Proof.
-  intros. cbn [canon]. rewrite !andb_true_iff, Nat.ltb_lt. tauto.
+  intros. cbn [canon]. rewrite !andb_true_iff. tauto.
 Qed.
 
 Definition is_edit (x : op * nat) : Prop := fst x <> Equal.
@@ -45,14 +44,14 @@ Lemma canon_block : forall blk p post, Forall is_edit blk -> canon p (blk ++ pos
 Proof.
   intros blk p post Hb Hc.
   destruct blk as [|[o1 n1] b1]; [now left|]. right.
-  inversion Hb as [|? ? H1 Hb1]; subst. cbn [app] in Hc. apply canon_cons in Hc as (_ & _ & Hc).
+  inversion Hb as [|? ? H1 Hb1]; subst. cbn [app] in Hc. apply canon_cons in Hc as (_ & Hc).
   destruct b1 as [|[o2 n2] b2].
   - destruct o1; [now elim H1|left; now exists n1|right; left; now exists n1].
-  - inversion Hb1 as [|? ? H2 Hb2]; subst. cbn [app] in Hc. apply canon_cons in Hc as (_ & Hf & Hc).
+  - inversion Hb1 as [|? ? H2 Hb2]; subst. cbn [app] in Hc. apply canon_cons in Hc as (Hf & Hc).
     destruct o1; [now elim H1| |destruct o2; [now elim H2|discriminate|discriminate]].
     destruct o2; [now elim H2|discriminate|].
     destruct b2 as [|[o3 n3] b3]; [right; right; now exists n1, n2|].
-    inversion Hb2 as [|? ? H3 _]; subst. cbn [app] in Hc. apply canon_cons in Hc as (_ & Hf3 & _).
+    inversion Hb2 as [|? ? H3 _]; subst. cbn [app] in Hc. apply canon_cons in Hc as (Hf3 & _).
     destruct o3; [now elim H3|discriminate|discriminate].
 Qed.
 
@@ -63,13 +62,7 @@ Proof.
   unfold canonical. intros pre. generalize Equal.
   induction pre as [|[o n] pre IH]; intros p blk post Hc Hb.
   - cbn [app] in Hc. eapply canon_block; eauto.
-  - cbn [app] in Hc. apply canon_cons in Hc as (_ & _ & Hc). eapply IH; eauto.
-Qed.
-
-Lemma canon_positive : forall ds p, canon p ds = true -> Forall (fun x => 0 < snd x) ds.
-Proof.
-  induction ds as [|[o n] r IH]; intros p H; [constructor|].
-  apply canon_cons in H as (Hn & _ & Hr). constructor; [exact Hn|eauto].
+  - cbn [app] in Hc. apply canon_cons in Hc as (_ & Hc). eapply IH; eauto.
 Qed.
 
 (* ---------------------------------------------------------------- the validator *)
@@ -120,7 +113,7 @@ Section ValidatorProofs.
   Proof.
     induction ds as [|[o n] r IH]; intros p old new.
     - cbn. rewrite andb_true_iff, !null_true. intuition lia.
-    - cbn [walk]. rewrite canon_cons. rewrite !andb_true_iff, Nat.ltb_lt.
+    - cbn [walk]. rewrite canon_cons. rewrite !andb_true_iff.
       destruct o; cbn [old_total new_total equal_cover].
       + rewrite andb_true_iff, eq_prefix_spec, IH, !skipn_length.
         rewrite <- (equal_cover_shift r old new n n 0 0). rewrite !Nat.add_0_r. cbn [skipn Nat.add].
@@ -170,7 +163,10 @@ Lemma walk_map : forall {A B} (eqb : B -> B -> bool) (f : A -> B) ds p o w,
 Proof.
   induction ds as [|[op n] r IH]; intros p o w.
   - destruct o, w; reflexivity.
-  - cbn [walk]. destruct op; rewrite ?eq_prefix_map, ?IH, ?skipn_map, ?map_length; reflexivity.
+  - cbn [walk]. destruct op.
+    + rewrite eq_prefix_map, IH, !skipn_map. reflexivity.
+    + rewrite IH, skipn_map, map_length. reflexivity.
+    + rewrite IH, skipn_map, map_length. reflexivity.
 Qed.
 
 Lemma script_ok_map : forall {A B} (eqb : B -> B -> bool) (f : A -> B) o w ds,
@@ -233,14 +229,19 @@ Section ConsumerProofs.
         rewrite (arr_update_ok (length done) i 0 done rest eq_refl) by lia. reflexivity.
     - split; [|split].
       + (* nothing pending *)
-        intros done rest pop Hc Ht. apply canon_cons in Hc as (Hn & _ & Hc).
+        intros done rest pop Hc Ht. apply canon_cons in Hc as (_ & Hc).
         cbn [hm_loop h_pn h_pop h_arr h_pos]. cbn [Nat.ltb Nat.leb].
         destruct o; cbn [old_total] in Ht; cbn [relabel].
         * apply step_equal; auto.
-        * destruct IH as (_ & HB & _). apply HB; auto.
-        * destruct IH as (_ & _ & HC). apply HC; auto.
+        * destruct n as [|n].
+          -- (* an empty deletion: pending.Text stays "" *)
+             destruct IH as (HA & _ & _). cbn [skipn]. apply HA; [eapply canon_weaken; eauto|lia].
+          -- destruct IH as (_ & HB & _). apply HB; auto; lia.
+        * destruct n as [|n].
+          -- destruct IH as (HA & _ & _). cbn [repeat app]. apply HA; [eapply canon_weaken; eauto|lia].
+          -- destruct IH as (_ & _ & HC). apply HC; auto; lia.
       + (* a deletion is pending *)
-        intros done rest d Hd Hc Ht. apply canon_cons in Hc as (Hn & Hf & Hc).
+        intros done rest d Hd Hc Ht. apply canon_cons in Hc as (Hf & Hc).
         cbn [hm_loop h_pn h_pop h_arr h_pos]. destruct (Nat.ltb_spec 0 d); [|lia].
         destruct o; [| discriminate |]; cbn [old_total] in Ht; cbn [relabel].
         * cbn [apply_edit]. rewrite (arr_update_ok (length done) 0 d done rest eq_refl) by lia.
@@ -251,7 +252,7 @@ Section ConsumerProofs.
           rewrite app_length, repeat_length, <- app_assoc in HA.
           rewrite HA by (rewrite skipn_length; lia). now rewrite <- app_assoc.
       + (* an insertion is pending *)
-        intros done rest i Hi Hc Ht. apply canon_cons in Hc as (Hn & Hf & Hc).
+        intros done rest i Hi Hc Ht. apply canon_cons in Hc as (Hf & Hc).
         cbn [hm_loop h_pn h_pop h_arr h_pos]. destruct (Nat.ltb_spec 0 i); [|lia].
         destruct o; [| discriminate | discriminate]; cbn [old_total] in Ht; cbn [relabel].
         cbn [apply_edit]. rewrite (arr_update_ok (length done) i 0 done rest eq_refl) by lia.
@@ -321,7 +322,7 @@ Lemma ls_loop_spec : forall ds p a r c pd, canon p ds = true -> (pd = 0 \/ p = D
   ls_removed s + ls_changed s = r + c + pd + del_total ds /\ ls_added s + ls_changed s = a + c + ins_total ds.
 Proof.
   induction ds as [|[o n] t IH]; intros p a r c pd Hc Hp; [cbn; lia|].
-  apply canon_cons in Hc as (Hn & Hf & Hc). cbn [ls_loop ls_added ls_removed ls_changed ls_pending del_total ins_total].
+  apply canon_cons in Hc as (Hf & Hc). cbn [ls_loop ls_added ls_removed ls_changed ls_pending del_total ins_total].
   destruct o.
   - specialize (IH Equal a (r + pd) c 0 Hc (or_introl eq_refl)). cbn zeta in *. lia.
   - assert (pd = 0) by (destruct Hp as [?|Hp]; [assumption|subst p; discriminate]). subst pd.
